@@ -162,6 +162,24 @@ pub mod __private {
 
         s
     }
+
+    /// The intersection `A & B & ..` of the given types. An object type directly
+    /// followed by another one is combined with it: `{ a } & { b }` is written
+    /// `{ a b }`. Not necessary, but it results in simpler type definitions.
+    /// The types themselves are never altered.
+    pub fn intersect(types: &[String]) -> String {
+        let mut s = String::new();
+
+        for ty in types {
+            s = match (s.strip_suffix(" }"), ty.strip_prefix("{ ")) {
+                (Some(head), Some(tail)) => format!("{} {}", head, tail),
+                _ if s.is_empty() => ty.clone(),
+                _ => format!("{} & {}", s, ty),
+            };
+        }
+
+        s
+    }
 }
 
 #[cfg(feature = "chrono-impl")]
